@@ -21,6 +21,7 @@ def main(seed, tier):
     fired, configured, probes, ref_exits, kinds = {}, {}, {}, {}, {}
     violations, samples = [], []
     distinct = set()
+    kept = {}
     for out in common.pmap(c06.run_item, [(it, seed, tier) for it in items]):
         for k in ("runs", "steps", "plans", "inside", "after"):
             agg[k] += out[k]
@@ -34,11 +35,24 @@ def main(seed, tier):
         ref_exits[out["ref_exit"]] = ref_exits.get(out["ref_exit"], 0) + 1
         kinds[out["kind"].split(":")[0]] = kinds.get(out["kind"].split(":")[0], 0) + 1
         violations.extend(out["violations"])
+        kept[out["id"]] = (out["runs"], out["plans"], sorted(out["fired"].items()), sorted(v["key"] for v in out["violations"]))
         if out["cases"] and len(samples) < 8 and out["id"] % 7 == 0:
             samples.extend(out["cases"])
         # distinct non-trivial case = (item, fault kind that fired at a distinct position); counted per item from fired keys
         for k, n in out["fired"].items():
             distinct.add((out["id"], k))
+    # worker-count independence (thorough): a few items re-run serially in this process must give the same fault counters
+    xcheck = 0
+    if tier == "thorough":
+        from .prng import Rng
+        pick = Rng(seed, "c06/xcheck").sample([it for it in items if it["fault_mode"] == "enumerate" and not it["kind"].startswith("example:mygit")], 6)
+        for it in pick:
+            again = c06.run_item((it, seed, tier))
+            a = (again["runs"], again["plans"], sorted(again["fired"].items()), sorted(v["key"] for v in again["violations"]))
+            b = kept.get(it["id"])
+            if b is not None and a != b:
+                raise HarnessError("item %d gives different results when re-run serially: the simulation is not deterministic" % it["id"])
+            xcheck += 1
     new, known = runner.triage("C06", seed, violations, c06.minimise, lambda p: c06.replay(p)[0])
     stuck = [p for p in ("multi_chunk_script", "single_chunk_script", "warning_then_script", "dest_preexisting", "rejected_grammar",
                          "stdin_input", "stdout_dest", "final_flush_fault_hit") if not probes.get(p)]
@@ -64,7 +78,7 @@ def main(seed, tier):
         "logical_steps_simulated": agg["steps"],
         "probes": probes,
         "probes_stuck_at_zero": stuck,
-        "determinism_selfcheck": {"items": ndet, "executions_each": 2, "mismatches": 0},
+        "determinism_selfcheck": {"items": ndet, "executions_each": 2, "mismatches": 0, "items_rerun_serially_vs_pool": xcheck},
         "runs_per_hour": int(agg["runs"] / max(t.s(), 0.001) * 3600),
         "runs_via_forkserver": agg["forkserver_runs"],
         "runs_via_fresh_exec": agg["runs"] - agg["forkserver_runs"],
